@@ -86,6 +86,8 @@ pub(crate) enum ActOp {
     FeeChange { which: u8, base: u128, mult: u128 },
     ValidatorUpdate { vkey: u8, power: u32 },
     CurrencyPairs { add: bool, pair: u8 },
+    /// kind: 0 create, 1 remove, 2 update
+    Markets { kind: u8, pair: u8, decimals: u8 },
     Ics20Withdrawal { asset: u8, amt: Amt, channel: u8, fee_asset: u8, bridge: Option<u8>, event: u8 },
 }
 
@@ -249,6 +251,9 @@ pub(crate) struct IbcOp {
     pub(crate) nonce: NonceSel,
     pub(crate) kind: IbcKind,
     pub(crate) nodes: u8,
+    /// general actions bundled in front of the relay action (same transaction, same signer)
+    #[serde(default)]
+    pub(crate) pre: Vec<ActOp>,
 }
 
 #[derive(Serialize, Deserialize, Clone, Debug, PartialEq, Eq)]
@@ -624,7 +629,11 @@ fn gen_tx(rng: &mut Rng, w: &Weights, cfg: &Config, gw: &mut GenWorld, id: u32, 
                 }
                 _ => {
                     for _ in 0..n_actions {
-                        actions.push(ActOp::CurrencyPairs { add: rng.chance(1, 2), pair: rng.below(4) as u8 });
+                        if rng.chance(1, 3) {
+                            actions.push(ActOp::Markets { kind: rng.below(3) as u8, pair: rng.below(4) as u8, decimals: rng.range(0, 12) as u8 });
+                        } else {
+                            actions.push(ActOp::CurrencyPairs { add: rng.chance(1, 2), pair: rng.below(4) as u8 });
+                        }
                     }
                 }
             }
@@ -793,12 +802,18 @@ fn gen_ibc(rng: &mut Rng, cfg: &Config, gw: &GenWorld, id: u32) -> IbcOp {
         1 => IbcKind::Ack { of: rng.below(16) as u8, success: rng.chance(1, 2) },
         _ => IbcKind::Timeout { of: rng.below(16) as u8 },
     };
+    let pre = if rng.chance(1, 4) {
+        vec![ActOp::Transfer { to: rng.below(na + 1) as u8, asset: 0, amt: Amt::PerMille(rng.range(1, 50) as u16), fee_asset: gw.fee_assets.first().copied().unwrap_or(0) }]
+    } else {
+        vec![]
+    };
     IbcOp {
         id,
         relayer,
         nonce: NonceSel::Next,
         kind,
         nodes: 0xff,
+        pre,
     }
 }
 
